@@ -137,3 +137,98 @@ pub async fn first_request(input: &Value) -> Value {
 	}
 	json!({"loaded": {"first_requests": res}})
 }
+
+// ---------------------------------------------------------------------------------------------
+// C12: concurrent attempts with traced locks
+
+struct WithTask<F> {
+	task: usize,
+	fut: std::pin::Pin<Box<F>>,
+}
+
+impl<F: std::future::Future> std::future::Future for WithTask<F> {
+	type Output = F::Output;
+	fn poll(
+		mut self: std::pin::Pin<&mut Self>,
+		cx: &mut std::task::Context<'_>,
+	) -> std::task::Poll<F::Output> {
+		use crate::verif_probe::traced::CURRENT_TASK;
+		let t = self.task;
+		CURRENT_TASK.with(|c| c.set(t));
+		let r = self.fut.as_mut().poll(cx);
+		CURRENT_TASK.with(|c| c.set(usize::MAX));
+		r
+	}
+}
+
+/// op concurrent_attempts: one real `request_certificate` per configured certificate, all polled
+/// from ONE FuturesUnordered inside block_on (as `MainEventLoop::run` does), on a runtime with the
+/// requested number of worker threads; lock events recorded by the traced RwLock.
+pub fn concurrent_attempts(input: &Value) -> Value {
+	use crate::verif_probe::traced;
+	let threads = input["threads"].as_u64().unwrap_or(2).max(1) as usize;
+	let overall = Duration::from_millis(input["timeout_ms"].as_u64().unwrap_or(60_000));
+	let path = input["path"].as_str().unwrap_or("").to_string();
+	let rt = tokio::runtime::Builder::new_multi_thread()
+		.enable_all()
+		.worker_threads(threads)
+		.build()
+		.unwrap();
+	rt.block_on(async move {
+		let mel = match MainEventLoop::new(&path, &[]).await {
+			Ok(m) => m,
+			Err(e) => return json!({"rejected": e.message}),
+		};
+		let mut ids: Vec<&String> = mel.certificates.keys().collect();
+		ids.sort();
+		let mut locks = vec![];
+		let mut names: Vec<&String> = mel.accounts.keys().collect();
+		names.sort();
+		for n in names {
+			locks.push(json!({"id": mel.accounts[n].trace_id(), "kind": "account", "name": n}));
+		}
+		let mut names: Vec<&String> = mel.endpoints.keys().collect();
+		names.sort();
+		for n in names {
+			locks.push(json!({"id": mel.endpoints[n].trace_id(), "kind": "endpoint", "name": n}));
+		}
+		let _ = traced::take_events();
+		traced::enable(true);
+		let mut futs = FuturesUnordered::new();
+		let mut tasks = vec![];
+		for (i, id) in ids.iter().enumerate() {
+			let cert = &mel.certificates[*id];
+			let acc = match mel.accounts.get(&cert.account_name) {
+				Some(a) => a.clone(),
+				None => continue,
+			};
+			let ept = match mel.endpoints.get(&cert.endpoint_name) {
+				Some(e) => e.clone(),
+				None => continue,
+			};
+			tasks.push(json!({"task": i, "certificate": id, "account": cert.account_name, "endpoint": cert.endpoint_name}));
+			futs.push(WithTask {
+				task: i,
+				fut: Box::pin(async move {
+					let r = request_certificate(cert, acc, ept).await;
+					(i, r.map_err(|e| e.message))
+				}),
+			});
+		}
+		let mut results = vec![];
+		let all = tokio::time::timeout(overall, async {
+			while let Some((i, r)) = futs.next().await {
+				results.push(json!({"task": i, "ok": r.is_ok(), "error": r.err()}));
+			}
+		})
+		.await
+		.is_ok();
+		traced::enable(false);
+		drop(futs);
+		let events: Vec<Value> = traced::take_events()
+			.iter()
+			.map(|(t, l, m, w)| json!([*t as i64, l, m.to_string(), w.to_string()]))
+			.collect();
+		json!({"all_returned": all, "results": results, "tasks": tasks, "locks": locks, "events": events})
+	})
+}
